@@ -519,6 +519,8 @@ func parseContent(contentMap map[string]any) (Content, error) {
 		return parseTextContent(contentMap)
 	case "image":
 		return parseImageContent(contentMap)
+	case "audio":
+		return parseAudioContent(contentMap)
 	case "resource":
 		return parseResourceContent(contentMap)
 	default:
@@ -546,6 +548,15 @@ func parseImageContent(contentMap map[string]any) (Content, error) {
 }
 
 // parseResourceContent parses resource content
+func parseAudioContent(contentMap map[string]any) (Content, error) {
+	data, hasData := contentMap["data"].(string)
+	mimeType, hasMimeType := contentMap["mimeType"].(string)
+	if !hasData || !hasMimeType {
+		return nil, fmt.Errorf("audio data or mimeType is missing")
+	}
+	return NewAudioContent(data, mimeType), nil
+}
+
 func parseResourceContent(contentMap map[string]any) (Content, error) {
 	resourceMap := extractMap(contentMap, "resource")
 	if resourceMap == nil {
